@@ -309,6 +309,7 @@ type gxHarness struct {
 	tokTypes     map[string]int64
 	etNames      map[int64]string
 	fault        string
+	lastPath     string // tail of the call path of the last ParseTokens run
 }
 
 func (c *Ctx) newGxHarness() *gxHarness {
@@ -372,6 +373,7 @@ func (h *gxHarness) parse(ls []lexeme) gxResult {
 		arr = []mv{}
 	}
 	errv, out := h.m.Call(h.parseTokens, h.parser, mSlice{arr})
+	h.lastPath = h.m.recentPath()
 	switch out.kind {
 	case "panic":
 		return gxResult{kind: "panic", why: out.why}
@@ -625,13 +627,13 @@ func (c *Ctx) gxRun() []*gxFamVerdict {
 								// the empty input is outside the statement ("every other non-empty token sequence")
 								break
 							}
-							r.langBad = fmt.Sprintf("%s is not a sentence of the grammar but is accepted and compiled to [%s]: tokens are skipped, substituted or ignored", show, strings.Join(got.rpn, " "))
+							r.langBad = fmt.Sprintf("%s is not a sentence of the grammar but is accepted and compiled to [%s]: tokens are skipped, substituted or ignored [last functions entered: %s]", show, strings.Join(got.rpn, " "), h.lastPath)
 						} else if strings.Join(got.rpn, " ") != strings.Join(want, " ") {
-							r.treeBad = fmt.Sprintf("%s is compiled to [%s]; the post-order of its syntax tree under the precedence table is [%s]", show, strings.Join(got.rpn, " "), strings.Join(want, " "))
+							r.treeBad = fmt.Sprintf("%s is compiled to [%s]; the post-order of its syntax tree under the precedence table is [%s] [last functions entered: %s]", show, strings.Join(got.rpn, " "), strings.Join(want, " "), h.lastPath)
 						}
 					case "reject":
 						if acc {
-							r.langBad = fmt.Sprintf("%s is a sentence of the grammar (post-order [%s]) but is rejected with %s", show, strings.Join(want, " "), got.code)
+							r.langBad = fmt.Sprintf("%s is a sentence of the grammar (post-order [%s]) but is rejected with %s [last functions entered: %s]", show, strings.Join(want, " "), got.code, h.lastPath)
 						} else if got.code == "" {
 							r.langBad = fmt.Sprintf("%s is rejected with an error that carries no code", show)
 						}
